@@ -348,6 +348,8 @@ class _Run:
             base = self.ev(e.value, env)
             if e.attr == "free_symbols":
                 return self.src("set", "str", "%s (SymPy symbols hash from their names)" % u(e), e.lineno)
+            if e.attr == "regrefs" and isinstance(e.ctx, ast.Load):
+                return self.src("seq", "str", "%s (register order of a transform follows the set order of its free symbols)" % u(e), e.lineno)
             if e.attr in self.o.props:
                 t = self.o.ret.get(self.o.props[e.attr].qual)
                 if t is not None:
@@ -464,7 +466,7 @@ class _Run:
         kws = [(k, self.ev(k.value, env)) for k in e.keywords]
         tainted = [(a, t) for a, t in args if t is not None]
         # --- calling a tainted callable
-        ft = self.ev(f, env) if isinstance(f, ast.Name) else None
+        ft = self.ev(f, env) if isinstance(f, (ast.Name, ast.Call)) else None
         if ft is not None and ft.kind == "callable":
             if e.args:
                 self.report(e, "positional call of a function whose parameter order comes from an unordered collection", ft)
